@@ -574,7 +574,7 @@ def check_g(ctx, facts, tier, seed, sm=None):
     for name, b in composites():
         if name == 'second clock domain':
             continue        # derived clocks are outside the cycle-based simulator's model (and see the C03 known finding)
-        if name == 'behavioural block with a local named like a port':
+        if name in ('behavioural block with a local named like a port', 'behavioural block with a state attribute its clock() never touches'):
             continue        # behaviour of transpiled method bodies is C02's matter (known finding C02.a HvShadowOut); C03 only needs its declarations
         designs.append((name, '', b, False, True))
     done = 0
